@@ -57,7 +57,7 @@ def run(tier, prop="C15", rules=("C15.R1", "C15.R2", "C15.R3"), floors=None):
                 res.inst(f.rule, f.desc)
             else:
                 res.violate(f.rule, f.where, f.construct, f.msg if f.ok is False else "not decided by the abstract interpreter (fail closed): " + f.msg, file=f.file, line=f.line)
-    for r, n in (floors or {"C15.R1": 1, "C15.R2": 1, "C15.R3": 3, "C15.R4": 1, "C15.R5": 3}).items():
+    for r, n in (floors or {"C15.R1": 1, "C15.R2": 1, "C15.R3": 2, "C15.R4": 1, "C15.R5": 3}).items():
         res.floor(r, n)
     res.explanation = ("CFG must-pass-through inside the loop of GenericParser::verify_claims: the loop ranges over the whole expected-claim map and Ok is returned only after its exhaustion; for a key without validator an iteration "
                        "completes only through the not-null edge and the equal edge of serde_json Value comparisons between expected[key] and json[key] of the authenticated payload (failing edges end in Err); "
